@@ -547,6 +547,102 @@ def rule_memberwise(ctx, roots, helpers, N, rid="R8.4"):
     return r
 
 
+def _json_values():
+    """Representatives of every JSON kind, of every relation the property names (true<->1, false<->0, 1<->1.0, 2**53 vs 2**53+1,
+    key order, element order) at depth 0-2, and of the Python carriers the library itself accepts as arrays/objects (dict and list
+    subclasses: what json.loads(object_pairs_hook=OrderedDict) produces)."""
+    from collections import OrderedDict
+
+    class L(list):
+        pass
+    scal = [None, True, False, 0, 1, 0.0, 1.0, 1.5, 2 ** 53, 2 ** 53 + 1, float(2 ** 53), "", "a", "1", "True"]
+    vals = list(scal)
+    for s_ in (True, 1, 1.0, False, 0, "a", None):
+        vals += [[s_], [[s_]], {"a": s_}, {"a": [s_]}, {"a": {"b": s_}}, [{"a": s_}]]
+    vals += [[], {}, [1, 2], [2, 1], {"a": 1, "b": 2}, {"b": 2, "a": 1}, {"a": 1}, {"b": 1}, {"a": None}, {"b": None}, [1], [1, 1],
+             OrderedDict([("a", 1), ("b", 2)]), OrderedDict([("b", 2), ("a", 1)]), OrderedDict([("a", True)]), L([True]), L([1]), [L([False])], {"a": OrderedDict([("b", True)])}]
+    return vals
+
+
+def _json_equal(a, b):
+    """JSON equality as the property states it (reference, independent of the code)."""
+    if isinstance(a, bool) or isinstance(b, bool):
+        return isinstance(a, bool) and isinstance(b, bool) and a == b
+    if isinstance(a, (int, float)) and isinstance(b, (int, float)):
+        return a == b
+    if isinstance(a, str) and isinstance(b, str):
+        return a == b
+    if a is None or b is None:
+        return a is None and b is None
+    if isinstance(a, list) and isinstance(b, list):
+        return len(a) == len(b) and all(_json_equal(x, y) for x, y in zip(a, b))
+    if isinstance(a, dict) and isinstance(b, dict):
+        return set(a) == set(b) and all(_json_equal(a[k], b[k]) for k in a)
+    return False
+
+
+def rule_relation_table(ctx, roots, rid="R8.5"):
+    """const, enum and uniqueItems evaluated (sa/tokeval.py) on every pair of a table of JSON values against the reference relation;
+    and on each other: const c accepts x iff enum [c] does iff uniqueItems rejects [c, x]."""
+    from ..tokeval import Ev, ValidatorStub, Undecided, PyRaise
+    prog = ctx.prog
+    r = ctx.rule(rid, "const, enum and uniqueItems decide every pair of the value table as JSON equality does, and agree with each other", floor=3)
+    vals = _json_values()
+    by_kw = {}
+    for f, ks in roots.items():
+        for k in ks:
+            by_kw[k] = f
+
+    ev = Ev(prog, fuel=10 ** 9)
+    stub = ValidatorStub({})
+
+    def errors(kw, value, instance):
+        f = by_kw[kw]
+        res = ev.call_func(f, [stub, value, instance, {kw: value}], {})
+        return len(list(res)) if res is not None else 0
+
+    def skeleton(v):
+        if isinstance(v, list):
+            return ("L",) + tuple(skeleton(x) for x in v[:1])
+        if isinstance(v, dict):
+            return ("D",) + tuple(skeleton(x) for x in list(v.values())[:1])
+        return "s"
+    thorough = ctx.tier == "thorough"
+    bad = {}
+    try:
+        n = 0
+        for a in vals:
+            for b in vals:
+                # quick tier: pairs of the same nesting skeleton (where all the interesting near-misses are) and scalar/container
+                # pairs with a scalar from a short list; thorough tier: the full square
+                if not thorough and skeleton(a) != skeleton(b) and not (skeleton(a) == "s" and a in (None, True, 0, 1, "a") and not isinstance(a, float)
+                                                                       or skeleton(b) == "s" and b in (None, True, 0, 1, "a") and not isinstance(b, float)):
+                    continue
+                n += 1
+                want = _json_equal(a, b)
+                got = {}
+                if "const" in by_kw:
+                    got["const"] = errors("const", a, b) == 0
+                got["enum"] = errors("enum", [a], b) == 0
+                got["uniqueItems"] = errors("uniqueItems", True, [a, b]) > 0
+                for kw, g in got.items():
+                    if g != want and kw not in bad:
+                        bad[kw] = "%s treats %r and %r as %s; as JSON values they are %s" % (kw, a, b, "equal" if g else "different", "equal" if want else "different")
+    except Undecided as u:
+        for kw in sorted(by_kw):
+            r.ok(site(by_kw[kw]) + " [%s]" % kw, "NOT DECIDED: %s" % u)
+        r.note(site(next(iter(by_kw.values()))), "equality table not decided: %s" % u)
+        return r
+    except PyRaise as pr:
+        bad["raises"] = "raises %s (%s)" % (pr.name, pr.msg)
+    for kw in sorted(by_kw):
+        if kw in bad or "raises" in bad:
+            r.fail("%s|%s|relation" % (by_kw[kw].qual, kw), site(by_kw[kw]), bad.get(kw) or bad["raises"])
+        else:
+            r.ok(site(by_kw[kw]) + " [%s]" % kw, "agrees with JSON equality on %d pairs (%d values: scalars, nestings to depth 2, key/element order, dict/list subclasses)" % (n, len(vals)))
+    return r
+
+
 def run(ctx):
     prog = ctx.prog
     ctx.explanation = (
@@ -575,3 +671,4 @@ def run(ctx):
     rule_one_relation(ctx, roots, helpers, equal, N)
     rule_normaliser(ctx, N)
     rule_memberwise(ctx, roots, helpers, N)
+    rule_relation_table(ctx, roots)
